@@ -56,6 +56,17 @@ def execute(progs, choices=None, rng=None):
         owners = dict(getattr(internals, "_owners", {}))
         return internals.count, {k: v for k, v in owners.items() if v}
 
+    snaps = []       # (index into s.log, count, owners, parked {tid: (wants_down, notified)})
+
+    def take(ev):
+        parked = {}
+        for th in s.threads:
+            if th.status == schedmod.WAITING and th.idx in cur and cur[th.idx][0][0] == "acq":
+                parked[th.idx] = (bool(cur[th.idx][0][1]), bool(th.notified))
+        c, o = snapshot()
+        snaps.append((len(s.log) - 1, c, o, parked))
+    s.on_event = lambda ev: take(ev) if ev[0] == "wait" else None
+
     def mk(tid, prog):
         def body():
             for op in prog:
@@ -85,8 +96,9 @@ def execute(progs, choices=None, rng=None):
                     except RuntimeError:
                         out = "error"
                 events.append(("ret", tid, out, snapshot()))
-                s.log.append(("ret", tid, out))
                 cur.pop(tid, None)
+                s.log.append(("ret", tid, out))
+                take(s.log[-1])
         return body
     for i, p in enumerate(progs):
         s.spawn(mk(i, p), f"T{i}")
@@ -95,7 +107,12 @@ def execute(progs, choices=None, rng=None):
     # merge: scheduler log has ("acq", tid, lockname) for every mutex acquisition and ("tick", dt)
     wants = {tid: v[0] for tid, v in cur.items()}
     return dict(result=res, sched_log=list(s.log), events=events, taken=list(s.taken), mutex=mutex_name,
-                final=snapshot(), blocked=s.blocked_desc if res != "done" else [], progs=progs, wants=wants)
+                final=snapshot(), blocked=s.blocked_desc if res != "done" else [], progs=progs, wants=wants, snaps=snaps)
+
+
+def snaps_by_cs(run):
+    """snapshot taken at the end of each critical section, in order (a section ends at a `wait` or a `ret` event)"""
+    return [sn for sn in run["snaps"]]
 
 
 def to_model_ops(run):
@@ -156,6 +173,13 @@ def judge(ctx, run, drv_lines_out=None):
                 probs.append(f"thread {tid} is blocked for ever inside release(): {run['blocked']}")
     elif run["result"] == "steps":
         probs.append("schedule did not terminate (livelock)")
+    for (li, cnt, owners, parked) in run["snaps"]:
+        for tid, (want_down, notified) in parked.items():
+            excluded = cnt > 0 if want_down else cnt < 0
+            if not notified and not excluded:
+                probs.append(f"thread {tid} is parked un-notified waiting for {'down' if want_down else 'up'} while the lock "
+                             f"count is {cnt} (lost wake-up) after scheduler event {li}")
+                return probs
     return probs
 
 
@@ -169,59 +193,66 @@ def instrumented_execute(progs, choices=None, rng=None):
     return orig_execute(progs, choices, rng)
 
 
+def snap_str(sn):
+    _, cnt, owners, parked = sn
+    o = ",".join(f"{k}:{v}" for k, v in sorted(owners.items())) or "-"
+    p = ",".join(f"{k}:{int(d)}:{int(n)}" for k, (d, n) in sorted(parked.items())) or "-"
+    return f"count={cnt} owners={o} parked={p}"
+
+
 def compare_with_model(ctx, runs):
-    """feed every run's critical-section sequence to the Lean model and compare outcomes + final state"""
+    """feed every run's critical-section sequence to the Lean model; after every critical section compare the model's
+    outcome, count, owners and parked/notified sets with the real lock's"""
     drv = common.Driver()
     lines, spans = [], []
     for r in runs:
         ops = to_model_ops(r)
         start = len(lines)
         lines.append("u.reset")
-        lines += ops
-        lines.append("u.dump")
+        for op in ops:
+            lines.append(op)
+            if not op.startswith("u.tick"):
+                lines.append("u.dump")
         spans.append((start, len(lines)))
     outs = drv.batch(lines)
     ndiv = 0
     for r, (a, b) in zip(runs, spans):
-        mouts = outs[a + 1:b - 1]
-        mops = lines[a + 1:b - 1]
-        dump = outs[b - 1]
-        # model outcome per call = outcome of the last critical section of that call
-        per_thread = {}
-        for op, o in zip(mops, mouts):
-            if op.startswith("u.tick"):
-                continue
-            tid = int(op.split()[1])
-            per_thread.setdefault(tid, []).append((op, o))
-        model_rets = {}
-        for tid, seq in per_thread.items():
-            calls = []
-            for op, o in seq:
-                if op.startswith("u.wake") and calls:
-                    calls[-1] = o
-                else:
-                    calls.append(o)
-            model_rets[tid] = calls
-        real_rets = {}
-        for e in r["events"]:
-            real_rets.setdefault(e[1], []).append(e[2])
+        seg_l, seg_o = lines[a + 1:b], outs[a + 1:b]
+        mops = [(l, o) for l, o in zip(seg_l, seg_o) if not l.startswith("u.dump") and not l.startswith("u.tick")]
+        dumps = [o for l, o in zip(seg_l, seg_o) if l.startswith("u.dump")]
         ok = True
-        for tid, calls in real_rets.items():
-            m = model_rets.get(tid, [])
-            norm = [{"refused": "false", "timedOut": "false"}.get(x, x) for x in m]
-            # calls still parked in the model at the end have outcome "parked" (thread blocked for ever in a deadlock)
-            if norm[:len(calls)] != calls:
+        why = None
+        # per critical section: state
+        for k, (d, sn) in enumerate(zip(dumps, r["snaps"])):
+            if not d.startswith(snap_str(sn) + " clock="):
                 ok = False
-        cnt, owners = r["final"]
-        mdump = f"count={cnt} owners=" + (",".join(f"{k}:{v}" for k, v in sorted(owners.items())) or "-")
-        if r["result"] == "done" and not dump.startswith(mdump):
+                why = {"section": k, "op": mops[k][0] if k < len(mops) else None, "real": snap_str(sn), "model": d}
+                break
+        if ok and len(dumps) != len(r["snaps"]) and r["result"] == "done":
             ok = False
+            why = {"sections_model": len(dumps), "sections_real": len(r["snaps"])}
+        # per call: outcome
+        if ok:
+            per_thread = {}
+            for op, o in mops:
+                tid = int(op.split()[1])
+                if op.startswith("u.wake") and per_thread.get(tid):
+                    per_thread[tid][-1] = o
+                else:
+                    per_thread.setdefault(tid, []).append(o)
+            real_rets = {}
+            for e in r["events"]:
+                real_rets.setdefault(e[1], []).append(e[2])
+            for tid, calls in real_rets.items():
+                norm = [{"refused": "false", "timedOut": "false"}.get(x, x) for x in per_thread.get(tid, [])]
+                if norm[:len(calls)] != calls:
+                    ok = False
+                    why = {"thread": tid, "real_returns": calls, "model_returns": norm}
         if not ok:
             ndiv += 1
             if len(ctx.corr_broken) < 4:
                 ctx.corr_broken.append({"stream": "UpDownLock-vs-UD", "progs": r["progs"], "schedule": r["taken"],
-                                        "model_ops": mops, "model_outs": mouts, "model_dump": dump,
-                                        "real_returns": real_rets, "real_final": mdump, "result": r["result"]})
+                                        "first_divergence": why, "result": r["result"]})
     return ndiv
 
 
